@@ -12,7 +12,7 @@ CHECKS = {
              "user function supplied through Config.python_modules; by simulation up to 8 grown nodes / 3 states / 2 controls / 2 calibrations, "
              "look-alike names, dt positive, zero and negative) with the exact rational value of every update expression; every behaviour is written "
              "down in its own random presentation (declaration order, container, proactive_simplify) and replayed into python.compile(...).model "
-             "with CSE off and on; results handed out earlier are re-read at the end of the behaviour. Thorough tier: every model / filter call the repository's own test-suite executes is recorded (pytest plugin, /repo untouched), projected against the Jacobian trees Derive.tla derives from the recorded definition and validated by EKFCalls_Trace.tla.",
+             "with CSE off and on; results handed out earlier are re-read at the end of the behaviour. Thorough tier: every model / filter call the repository's own test-suite executes is recorded (pytest plugin, /repo untouched), projected against the Jacobian trees Derive.tla derives from the recorded definition and validated by EKFCalls_Trace.tla. One State object that is overwritten in place between evaluations is evaluated before a fresh object with the same values.",
         design_ref="DESIGN.md section 4 C01",
         note="Trusted: TLC + Rational.tla exact arithmetic; the 30-line reference interpreter for elementary "
              "functions (cross-checked against TLC on the rational fragment on every run); tolerance 1e-9 relative.",
@@ -55,7 +55,7 @@ CHECKS = {
         category="model_checking",
         text="TLC computes x' = f(x,u) and P' = G P G^T + V M V^T exactly (M assembled by control NAME with distinct noises) along histories of "
              "6-9 SetEstimate/Predict calls on ONE filter object that repeat dt values (incl. dt = 0), checks symmetry/PSD of every covariance as "
-             "an invariant, and the behaviours are replayed into process_model (inputs unmodified, repeat call identical). Thorough tier: every model / filter call the repository's own test-suite executes is recorded (pytest plugin, /repo untouched), projected against the Jacobian trees Derive.tla derives from the recorded definition and validated by EKFCalls_Trace.tla. TLC also checks that measuring a control in other units changes nothing (InvRescaleControl); every behaviour with a control is replayed a second time with that control in units 2^20 times larger (noise variance ~1e-12).",
+             "an invariant, and the behaviours are replayed into process_model (inputs unmodified, repeat call identical). Thorough tier: every model / filter call the repository's own test-suite executes is recorded (pytest plugin, /repo untouched), projected against the Jacobian trees Derive.tla derives from the recorded definition and validated by EKFCalls_Trace.tla. TLC also checks that measuring a control in other units changes nothing (InvRescaleControl); every behaviour with a control is replayed a second time with that control in units 2^20 times larger (noise variance ~1e-12). A further family has two controls and products only (the control Jacobian depends on state and control); its prediction histories -- one filter object, repeating dt, changing state and control -- are replayed into the generated C++ as well.",
         design_ref="DESIGN.md section 4 C04",
         note="Trusted: exact rational linear algebra (Linalg.tla); rational fragment only; SPD integer covariances.",
         technique="TLA+ spec (Formak.tla Predict) + TLC simulation with invariants; spec->code replay into the Python EKF",
@@ -171,7 +171,7 @@ CHECKS = {
              "and the history invariants for each, and the real StateMachineState.search is replayed on synthetic state classes realising "
              "every digraph (all 9 pairs + non-id targets). The relation declared by the code must equal the spec's; traces of the real "
              "workflow (moves, histories, searches, fit_model over data sizes and grids with selected/exported hyper-parameters) are "
-             "validated by TLC against Workflow_Trace.tla.",
+             "validated by TLC against Workflow_Trace.tla. Two design sessions run one after the other in one process: the second session's defaults must be the library's, whatever the first one searched over.",
         design_ref="DESIGN.md section 4 C18",
         note="Trusted: synthetic subclasses of the real StateMachineState; scikit-learn's GridSearchCV as used by the library.",
         technique="TLA+ spec (Workflow.tla) exhaustive over digraphs + spec->code replay of search; code->spec trace validation of the real workflow",
